@@ -262,4 +262,60 @@ def run (gen : Nat → Nat → V) (toSeed : V → Nat) (cfg : TrialCfg V D R) :
 
 end streams
 
+/-! ### the time-generation service (`Livetime.draw_ontimes`, `TimeGenerator.generate_times`)
+
+The only state of a `Livetime` object is its up-time interval array (changed by the
+`uptime_mjd_intervals_arr` setter); `LivetimeTimeGenerationMethod` and `TimeGenerator` hold a
+reference to it and nothing else.  A draw reads `size` uniform deviates (two words each) from the
+service it is given.  The code keeps no cache, so the model has none either: the state machine
+below exists to say that a draw is a function of (current intervals, window, size, stream). -/
+
+structure TimeCfg (V I W T : Type) where
+  /-- the times computed from the intervals, the optional window `(t_min, t_max)`, `size` and the
+  deviates read from the stream view -/
+  draw : I → Option W → Nat → (Nat → V) → T
+
+inductive TOp (I W : Type) where
+  /-- `draw_ontimes(rss=svc, size, t_min, t_max)` / `generate_times(rss=svc, size, …)` -/
+  | draw (svc : Nat) (win : Option W) (size : Nat)
+  /-- `livetime.uptime_mjd_intervals_arr = ivs` -/
+  | setIvs (ivs : I)
+  /-- any other consumer of `k` words of service `svc` -/
+  | other (svc k : Nat)
+  | reseed (svc seed : Nat)
+
+def TOp.setsIvs {I W : Type} : TOp I W → Bool
+  | .setIvs _ => true
+  | _ => false
+
+def TOp.touches {I W : Type} (a : Nat) : TOp I W → Bool
+  | .draw s _ _ => s == a
+  | .setIvs _ => false
+  | .other s _ => s == a
+  | .reseed s _ => s == a
+
+structure TState (I : Type) where
+  ivs : I
+  world : World
+
+section times
+variable {V I W T : Type}
+
+def tstep (gen : Nat → Nat → V) (tc : TimeCfg V I W T) (st : TState I) : TOp I W → TState I × Option T
+  | .draw s win size =>
+    (⟨st.ivs, st.world.set s ((st.world s).adv (2 * size))⟩,
+      some (tc.draw st.ivs win size ((st.world s).view gen)))
+  | .setIvs ivs => (⟨ivs, st.world⟩, none)
+  | .other s k => (⟨st.ivs, st.world.set s ((st.world s).adv k)⟩, none)
+  | .reseed s seed => (⟨st.ivs, st.world.set s (Stream.fresh seed)⟩, none)
+
+def trun (gen : Nat → Nat → V) (tc : TimeCfg V I W T) : TState I → List (TOp I W) → TState I × List (Option T)
+  | st, [] => (st, [])
+  | st, op :: rest =>
+    let r := tstep gen tc st op
+    let r' := trun gen tc r.1 rest
+    (r'.1, r.2 :: r'.2)
+
+end times
+
 end Rng
